@@ -28,7 +28,6 @@ Oracle (written from the statement; the message *text* is never interpreted, onl
      directly before or directly after the span.seg carrying that node's line number contains the
      message after unescaping, and the echoed offending value inside it has its < > & escaped.
 """
-import copy
 from html.parser import HTMLParser
 from mc import core, corpus, ref, gen, c05
 
@@ -116,7 +115,6 @@ def align(raw, want):
     Backtracks over the only ambiguity there is (an '&' that may or may not start an entity)."""
     esc = {' ': '&nbsp;', '&': '&amp;', '<': '&lt;', '>': '&gt;'}
     n = len(want)
-    stack = [(0, 0, ())]
     flags = [None] * n
     # iterative depth-first search; alternatives exist only at special characters
     alt = []
@@ -664,7 +662,7 @@ def payload_docs(thorough):
 def run_text(label, text, stats=None):
     o, tree = observe(text)
     if o.exc:
-        return None, 'validation does not complete (C07 domain)'
+        return None, 'validation does not complete (C07 domain): %s@%s' % (o.exc, o.exc_where)
     if not ref.header_ok(text):
         return None, 'ISA header not well formed (reference tokenizer undefined)'
     return judge(text, o, tree, stats), None
